@@ -62,18 +62,19 @@ PATH_SETS = {
 }
 
 
-def path_set(name, extra=None):
+def path_set(name, extra=None, batch=0):
     """Complete path set over the alphabet, de-tied: cell (j, t) is multiplied by
     1 + (frac((j*T + t + 1) * golden) - 1/2) / 32, a deterministic low-discrepancy perturbation, so
-    that no two paths (and no two P&L order statistics) coincide."""
+    that no two paths (and no two P&L order statistics) coincide.  ``batch`` j > 0 gives the j-th further batch of an
+    ensemble (n_times > 1): another stretch of the perturbation sequence and all prices scaled by 1 + j/16."""
     A, T, first = PATH_SETS[name]
     if extra is not None:
         A = list(A) + [extra]
     base = all_paths(A, T, dtype=torch.float64, first=first)
     N = base.size(0)
-    k = torch.arange(N * T, dtype=torch.float64).reshape(N, T) + 1
+    k = torch.arange(N * T, dtype=torch.float64).reshape(N, T) + 1 + 1009 * batch
     pert = torch.frac(k * GOLD) - 0.5
-    return base * (1 + pert / 32)
+    return base * (1 + pert / 32) * (1 + batch / 16)
 
 
 def _generic(shape, gen, scale):
@@ -200,7 +201,12 @@ def build_world(case):
         # isoelastic utility needs positive wealth: the liability is the payoff minus a constant endowment
         # (fixed below, once the hedger exists, so that the terminal wealth is >= 2 on every path)
         deriv.add_clause("c14_endowment", lambda d, payoff: payoff - endowment["value"])
-    w.sim = market.ScriptedSimulate(stock, [{"spot": spot}], cycle=True)
+    # one scripted batch per simulate call of an evaluation (n_times of them); the call counter is reset before
+    # every evaluation, so every evaluation of the loss sees the same batches in the same order
+    w.n_times = int(case.get("n_times", 1))
+    w.mode = case.get("mode", "train")
+    batches = [spot] + [path_set(case["paths"], case.get("extra"), batch=j) for j in range(1, w.n_times)]
+    w.sim = market.ScriptedSimulate(stock, [{"spot": b} for b in batches], cycle=True)
     H = case["H"]
     hedge = None
     if H == 2:
@@ -255,11 +261,14 @@ def build_world(case):
         raise HarnessError(f"C14: feature mode {fm} does not select the intended evaluation mode")
     w.mo_net, w.model, w.criterion = mo_net, model, crit
     if crit_name.startswith("isoelastic"):
+        worst_pl = 0.0
         with torch.no_grad():
-            deriv.simulate(n_paths=N)
-            worst_pl = float(hedger.compute_pl(deriv, hedge=hedge).min())
-        if not math.isfinite(worst_pl):
-            worst_pl = 0.0
+            for _ in range(w.n_times):
+                deriv.simulate(n_paths=N)
+                v = float(hedger.compute_pl(deriv, hedge=hedge).min())
+                if math.isfinite(v):
+                    worst_pl = min(worst_pl, v)
+        w.sim.calls = 0
         endowment["value"] = float(math.ceil(max(0.0, -worst_pl))) + 2.0
     params = [("model." + n, p) for n, p in model.named_parameters()]
     if mo_net is not None:
@@ -270,7 +279,8 @@ def build_world(case):
 
 
 def loss_value(w):
-    return float(w.hedger.compute_loss(w.derivative, hedge=w.hedge, n_paths=w.N, enable_grad=False))
+    w.sim.calls = 0
+    return float(w.hedger.compute_loss(w.derivative, hedge=w.hedge, n_paths=w.N, n_times=w.n_times, enable_grad=False))
 
 
 def stepwise_expected(fm):
@@ -313,13 +323,20 @@ def grad_fd(ctx, block):
     for case in cases:
         w = build_world(case)
         hedger = w.hedger
-        # back-propagated gradient of the real loss
-        hedger.train()
-        loss = hedger.compute_loss(w.derivative, hedge=w.hedge, n_paths=w.N)
+        # back-propagated gradient of the real loss (ensemble mean over n_times scripted batches), with the
+        # hedger in the module mode the configuration names: nothing here has dropout / batch-norm, so the
+        # gradient must not depend on it
+        hedger.train() if w.mode == "train" else hedger.eval()
+        w.sim.calls = 0
+        loss = hedger.compute_loss(w.derivative, hedge=w.hedge, n_paths=w.N, n_times=w.n_times)
+        if w.sim.calls != w.n_times:
+            ctx.violation("Hedger.compute_loss", "ensemble_simulate_calls", f"compute_loss(n_times={w.n_times}) simulated {w.sim.calls} times",
+                          observed=w.sim.calls, expected=w.n_times, block={"cases": [case]})
         site = "Hedger.compute_loss"
         mini = {"cases": [case]}
         if not (loss.requires_grad and loss.grad_fn is not None):
-            ctx.violation(site, "default_loss_has_no_graph", "compute_loss() with default enable_grad returned a tensor without graph",
+            ctx.violation(site, "default_loss_has_no_graph" + ("" if w.n_times == 1 else ":n_times>1"),
+                          f"compute_loss(n_times={w.n_times}) with default enable_grad returned a tensor without graph",
                           observed=[bool(loss.requires_grad), str(loss.grad_fn)], expected="graph", block=mini)
             ctx.tick(1)
             continue
@@ -340,6 +357,7 @@ def grad_fd(ctx, block):
                 g_ad += g.reshape(-1).tolist()
         if case["criterion"].startswith("isoelastic"):
             with torch.no_grad():
+                w.sim.calls = 0
                 w.derivative.simulate(n_paths=w.N)
                 wealth = hedger.compute_pl(w.derivative, hedge=w.hedge)
             if not (wealth.min() > 0.25):
@@ -431,6 +449,10 @@ def _kind(case):
     k = [case["criterion"], case["fm"]]
     if case["cost"] > 0:
         k.append("cost")
+    if case.get("n_times", 1) > 1:
+        k.append("ensemble")
+    if case.get("mode", "train") == "eval":
+        k.append("eval_mode")
     return "/".join(k)
 
 
@@ -485,11 +507,14 @@ def no_graph(ctx, block):
                                               f"price() returned requires_grad={pr.requires_grad}, grad_fn={pr.grad_fn}",
                                               observed=[bool(pr.requires_grad), str(pr.grad_fn)], expected=[False, "None"], block=mini)
                             ctx.outcome(("price", case["criterion"], round(float(pr), 9)))
-            # vacuity guard: the default loss does carry a graph
-            out = hedger.compute_loss(w.derivative, hedge=w.hedge, n_paths=w.N)
-            if not out.requires_grad:
-                ctx.violation("Hedger.compute_loss", "default_loss_has_no_graph", "compute_loss() returned a tensor without graph",
-                              observed=False, expected=True, block=mini)
+            # the default loss does carry a graph, also as an ensemble mean, in either module mode
+            for nt in (1, 2, 3):
+                out = hedger.compute_loss(w.derivative, hedge=w.hedge, n_paths=w.N, n_times=nt)
+                n += 1
+                if not (out.requires_grad and out.grad_fn is not None):
+                    ctx.violation("Hedger.compute_loss", "default_loss_has_no_graph" + ("" if nt == 1 else ":n_times>1"),
+                                  f"compute_loss(n_times={nt}) returned a tensor without graph ({mode} mode)",
+                                  observed=[bool(out.requires_grad), str(out.grad_fn)], expected="graph", block=mini)
         ctx.tick(n, nontrivial=n)
 
 
@@ -530,6 +555,8 @@ def run(ctx):
     ctx.alphabet("feature_mode", list(FMODES))
     ctx.alphabet("cost", [0.0, 0.01])
     ctx.alphabet("H", [1, 2])
+    ctx.alphabet("n_times", [1, 2, 3])
+    ctx.alphabet("module_mode", ["train", "eval"])
     ctx.alphabet("model", list(MODELS) + list(BANDS))
     extra = ctx.extra_symbol("spot", [0.7, 1.1, 1.25, 1.4])
     if ctx.quick:
@@ -543,6 +570,13 @@ def run(ctx):
         # Q3: trainable no-transaction bands through Clamp / LeakyClamp modules and the functional forms
         q3 = _cases({"criterion": ["erm", "es", "mse"], "fm": ["prev"], "cost": [0.01], "H": [1, 2], "model": list(BANDS),
                      "paths": ["A2T5"]}, wseed)
+        # Q4: ensemble means (a different scripted batch per simulate call) and the module-mode axis
+        q4 = []
+        for nt, mode in ((2, "train"), (3, "train"), (1, "eval"), (2, "eval")):
+            for c in _cases({"criterion": list(CRITERIA), "fm": ["vec", "prev"], "cost": [0.01], "H": [1], "model": ["mlp"],
+                             "paths": ["A2T5"]}, wseed):
+                q4.append(dict(c, n_times=nt, mode=mode))
+        q3 = q3 + q4
         for chunk in _chunks(q1 + q2 + q3, 16):
             ctx.run("grad_fd", {"cases": chunk})
         ng = _cases({"criterion": list(CRITERIA), "fm": ["vec", "prev", "mo_vec"], "cost": [0.01], "H": [1, 2],
@@ -560,6 +594,14 @@ def run(ctx):
                 cs += _cases({"criterion": crits, "fm": ["prev"], "cost": [0.0, 0.01], "H": [1, 2],
                               "model": list(BANDS), "paths": [ps]}, ws, extra=extra if ps == "A4T3" else None)
                 blocks += [{"cases": c} for c in _chunks(cs, 30)]
+        # ensemble means and module mode: full product with the feature modes on two path sets
+        for ps in ("A3T4", "A2T6"):
+            cs = []
+            for nt, mode in ((2, "train"), (3, "train"), (1, "eval"), (2, "eval"), (3, "eval")):
+                for c in _cases({"criterion": crits, "fm": list(FMODES), "cost": [0.01], "H": [1, 2], "model": ["mlp"],
+                                 "paths": [ps]}, wseed):
+                    cs.append(dict(c, n_times=nt, mode=mode))
+            blocks += [{"cases": c} for c in _chunks(cs, 30)]
         ctx.run_parallel("grad_fd", blocks, workers=min(_workers(), len(blocks)))
         ng = _cases({"criterion": crits, "fm": list(FMODES), "cost": [0.0, 0.01], "H": [1, 2],
                      "model": list(MODELS), "paths": ["A3T4", "A2T6"]}, wseed)
